@@ -125,16 +125,17 @@ theorem Ext.alloc (h : Heap) (c : Cell) (hw : h.WF) : Ext h (alloc h c).2 :=
 
 mutual
   theorem buildVal_spec (v : V) (h : Heap) (hw : h.WF) (hv : HVal) (h1 : Heap) (hb : buildVal h v = (hv, h1)) :
-      Ext h h1 ∧ ∃ F, Rep h1 hv v F ∧ ∀ a, a ∈ F → h.next ≤ a ∧ a < h1.next := by
+      Ext h h1 ∧ ∃ F, Rep h1 hv v F ∧ (∀ a, a ∈ F → h.next ≤ a ∧ a < h1.next) ∧ (∀ a, h.next ≤ a → a < h1.next → a ∈ F) := by
     cases v with
-    | unk => simp only [buildVal, Prod.mk.injEq] at hb; obtain ⟨rfl, rfl⟩ := hb; exact ⟨Ext.refl h hw, [], by simp [Rep], by simp⟩
-    | na => simp only [buildVal, Prod.mk.injEq] at hb; obtain ⟨rfl, rfl⟩ := hb; exact ⟨Ext.refl h hw, [], by simp [Rep], by simp⟩
+    | unk => simp only [buildVal, Prod.mk.injEq] at hb; obtain ⟨rfl, rfl⟩ := hb; exact ⟨Ext.refl h hw, [], by simp [Rep], by simp, fun a h1 h2 => by omega⟩
+    | na => simp only [buildVal, Prod.mk.injEq] at hb; obtain ⟨rfl, rfl⟩ := hb; exact ⟨Ext.refl h hw, [], by simp [Rep], by simp, fun a h1 h2 => by omega⟩
     | chr q t =>
       simp only [buildVal, alloc, Prod.mk.injEq] at hb
       obtain ⟨rfl, rfl⟩ := hb
-      refine ⟨Ext.alloc h (.str t) hw, [h.next], ?_, ?_⟩
+      refine ⟨Ext.alloc h (.str t) hw, [h.next], ?_, ?_, ?_⟩
       · simp only [Rep]; exact ⟨h.next, rfl, by simp, rfl⟩
       · intro a ha; simp at ha; subst ha; simp
+      · intro a h1 h2; simp only [] at h2; simp; omega
     | numb q t neg d su sc =>
       cases su with
       | none =>
@@ -142,7 +143,7 @@ mutual
         obtain ⟨rfl, rfl⟩ := hb
         have e1 := Ext.alloc h (.str t) hw
         have e2 := Ext.alloc (alloc h (.str t)).2 (.str d) e1.wf
-        refine ⟨e1.trans e2, [h.next, h.next + 1], ?_, ?_⟩
+        refine ⟨e1.trans e2, [h.next, h.next + 1], ?_, ?_, (by intro a h1 h2; simp only [] at h2; simp; omega)⟩
         · simp only [Rep]
           refine ⟨h.next, h.next + 1, by omega, ?_, ?_, ?_⟩
           · have : ¬ h.next = h.next + 1 := by omega
@@ -156,7 +157,7 @@ mutual
         have e1 := Ext.alloc h (.str t) hw
         have e2 := Ext.alloc (alloc h (.str t)).2 (.str d) e1.wf
         have e3 := Ext.alloc (alloc (alloc h (.str t)).2 (.str d)).2 (.str s) e2.wf
-        refine ⟨(e1.trans e2).trans e3, [h.next, h.next + 1, h.next + 1 + 1], ?_, ?_⟩
+        refine ⟨(e1.trans e2).trans e3, [h.next, h.next + 1, h.next + 1 + 1], ?_, ?_, (by intro a h1 h2; simp only [] at h2; simp; omega)⟩
         · simp only [Rep]
           refine ⟨h.next, h.next + 1, by omega, ?_, ?_, Or.inr ⟨s, h.next + 1 + 1, rfl, by omega, by omega, ?_, rfl, rfl⟩⟩
           · have h1 : ¬ h.next = h.next + 1 + 1 := by omega
@@ -172,9 +173,9 @@ mutual
       obtain ⟨xs, h2⟩ := r
       simp only [alloc, Prod.mk.injEq] at hb
       obtain ⟨rfl, rfl⟩ := hb
-      obtain ⟨e1, F1, hrep, hrange⟩ := buildElems_spec vs h hw xs h2 hbe
+      obtain ⟨e1, F1, hrep, hrange, hcover⟩ := buildElems_spec vs h hw xs h2 hbe
       have e2 := Ext.alloc h2 (.arr xs xs.length) e1.wf
-      refine ⟨e1.trans e2, F1 ++ [h2.next], ?_, ?_⟩
+      refine ⟨e1.trans e2, F1 ++ [h2.next], ?_, ?_, ?_⟩
       · simp only [Rep]
         refine Or.inr ⟨h2.next, xs, xs.length, F1, rfl, by simp, Nat.le_refl _, ?_, ?_, rfl⟩
         · apply RepElems_congr h2 _ vs xs F1 _ hrep
@@ -188,22 +189,28 @@ mutual
         rcases ha with ha | rfl
         · have := hrange a ha; simp only []; omega
         · have := e1.le; simp only []; omega
+      · intro a h1' h2'
+        simp only [] at h2'
+        simp only [List.mem_append, List.mem_singleton]
+        by_cases hlt : a < h2.next
+        · exact Or.inl (hcover a h1' hlt)
+        · exact Or.inr (by omega)
     | tbl es =>
       simp only [buildVal] at hb
       generalize hbe : buildEntries h es = r at hb
       obtain ⟨ents, h2⟩ := r
       simp only [Prod.mk.injEq] at hb
       obtain ⟨rfl, rfl⟩ := hb
-      obtain ⟨e1, F1, hrep, hrange⟩ := buildEntries_spec es h hw ents h2 hbe
-      exact ⟨e1, F1, by simp only [Rep]; exact ⟨ents, rfl, hrep⟩, hrange⟩
+      obtain ⟨e1, F1, hrep, hrange, hcover⟩ := buildEntries_spec es h hw ents h2 hbe
+      exact ⟨e1, F1, by simp only [Rep]; exact ⟨ents, rfl, hrep⟩, hrange, hcover⟩
   theorem buildElems_spec (vs : List V) (h : Heap) (hw : h.WF) (xs : List Nat) (h1 : Heap)
       (hb : buildElems h vs = (xs, h1)) :
-      Ext h h1 ∧ ∃ F, RepElems h1 xs vs F ∧ ∀ a, a ∈ F → h.next ≤ a ∧ a < h1.next := by
+      Ext h h1 ∧ ∃ F, RepElems h1 xs vs F ∧ (∀ a, a ∈ F → h.next ≤ a ∧ a < h1.next) ∧ (∀ a, h.next ≤ a → a < h1.next → a ∈ F) := by
     cases vs with
     | nil =>
       simp only [buildElems, Prod.mk.injEq] at hb
       obtain ⟨rfl, rfl⟩ := hb
-      exact ⟨Ext.refl h hw, [], by simp [RepElems], by simp⟩
+      exact ⟨Ext.refl h hw, [], by simp [RepElems], by simp, fun a h1 h2 => by omega⟩
     | cons v vs =>
       simp only [buildElems] at hb
       generalize hbv : buildVal h v = r at hb
@@ -213,11 +220,11 @@ mutual
       obtain ⟨as, h3⟩ := r2
       simp only [alloc_fst, Prod.mk.injEq] at hb
       obtain ⟨rfl, rfl⟩ := hb
-      obtain ⟨e1, F1, hrep1, hrange1⟩ := buildVal_spec v h hw hv ha hbv
+      obtain ⟨e1, F1, hrep1, hrange1, hcover1⟩ := buildVal_spec v h hw hv ha hbv
       have e2 := Ext.alloc ha (.val hv) e1.wf
-      obtain ⟨e3, F2, hrep2, hrange2⟩ := buildElems_spec vs (alloc ha (.val hv)).2 e2.wf as _ hbr
+      obtain ⟨e3, F2, hrep2, hrange2, hcover2⟩ := buildElems_spec vs (alloc ha (.val hv)).2 e2.wf as _ hbr
       have hn2 : (alloc ha (.val hv)).2.next = ha.next + 1 := rfl
-      refine ⟨(e1.trans e2).trans e3, F1 ++ [ha.next] ++ F2, ?_, ?_⟩
+      refine ⟨(e1.trans e2).trans e3, F1 ++ [ha.next] ++ F2, ?_, ?_, ?_⟩
       · simp only [RepElems]
         refine ⟨ha.next, as, hv, F1, F2, rfl, ?_, ?_, hrep2, ?_, ?_, rfl⟩
         · rw [e3.frame ha.next (by rw [hn2]; omega)]; simp [alloc_cell]
@@ -242,14 +249,21 @@ mutual
         · have := hrange1 a hmem; omega
         · omega
         · have := hrange2 a hmem; rw [hn2] at this; omega
+      · intro a h1' h2'
+        simp only [List.mem_append, List.mem_singleton]
+        by_cases hlt : a < ha.next
+        · exact Or.inl (Or.inl (hcover1 a h1' hlt))
+        · by_cases heq : a = ha.next
+          · exact Or.inl (Or.inr heq)
+          · exact Or.inr (hcover2 a (by rw [hn2]; omega) h2')
   theorem buildEntries_spec (es : List (Str × Str × V)) (h : Heap) (hw : h.WF) (ents : List Nat) (h1 : Heap)
       (hb : buildEntries h es = (ents, h1)) :
-      Ext h h1 ∧ ∃ F, RepEntries h1 ents es F ∧ ∀ a, a ∈ F → h.next ≤ a ∧ a < h1.next := by
+      Ext h h1 ∧ ∃ F, RepEntries h1 ents es F ∧ (∀ a, a ∈ F → h.next ≤ a ∧ a < h1.next) ∧ (∀ a, h.next ≤ a → a < h1.next → a ∈ F) := by
     cases es with
     | nil =>
       simp only [buildEntries, Prod.mk.injEq] at hb
       obtain ⟨rfl, rfl⟩ := hb
-      exact ⟨Ext.refl h hw, [], by simp [RepEntries], by simp⟩
+      exact ⟨Ext.refl h hw, [], by simp [RepEntries], by simp, fun a h1 h2 => by omega⟩
     | cons e es =>
       obtain ⟨k, ko, v⟩ := e
       simp only [buildEntries] at hb
@@ -271,14 +285,14 @@ mutual
       obtain ⟨rest, g5⟩ := r2
       simp only [Prod.mk.injEq] at hb
       obtain ⟨rfl, rfl⟩ := hb
-      obtain ⟨e3, F1, hrep1, hrange1⟩ := buildVal_spec v g2 eko.wf hv g3 hbv
+      obtain ⟨e3, F1, hrep1, hrange1, hcover1⟩ := buildVal_spec v g2 eko.wf hv g3 hbv
       have e4 := Ext.alloc g3 (.entry hv h.next (h.next + 1)) e3.wf
-      obtain ⟨e5, F2, hrep2, hrange2⟩ := buildEntries_spec es _ e4.wf rest _ hbr
+      obtain ⟨e5, F2, hrep2, hrange2, hcover2⟩ := buildEntries_spec es _ e4.wf rest _ hbr
       have hn4 : (alloc g3 (.entry hv h.next (h.next + 1))).2.next = g3.next + 1 := rfl
       have l3 := e3.le
       have l5 := e5.le
       rw [hn4] at l5
-      refine ⟨((ek.trans eko).trans e3).trans (e4.trans e5), h.next :: (h.next + 1) :: F1 ++ [g3.next] ++ F2, ?_, ?_⟩
+      refine ⟨((ek.trans eko).trans e3).trans (e4.trans e5), h.next :: (h.next + 1) :: F1 ++ [g3.next] ++ F2, ?_, ?_, ?_⟩
       · simp only [RepEntries]
         refine ⟨g3.next, rest, hv, h.next, h.next + 1, F1, F2, rfl, ?_, ?_, ?_, ?_, hrep2, ?_, ?_, ?_, by omega, by omega,
           Or.inr ⟨by omega, ?_, rfl⟩⟩
@@ -309,6 +323,17 @@ mutual
         · have := hrange1 a hmem; omega
         · omega
         · have := hrange2 a hmem; rw [hn4] at this; omega
+      · intro a h1' h2'
+        simp only [List.cons_append, List.mem_cons, List.mem_append, List.mem_singleton, List.not_mem_nil, or_false]
+        by_cases h0 : a = h.next
+        · exact Or.inl h0
+        · by_cases h01 : a = h.next + 1
+          · exact Or.inr (Or.inl h01)
+          · by_cases hlt : a < g3.next
+            · exact Or.inr (Or.inr (Or.inl (Or.inl (hcover1 a (by omega) hlt))))
+            · by_cases heq : a = g3.next
+              · exact Or.inr (Or.inr (Or.inl (Or.inr heq)))
+              · exact Or.inr (Or.inr (Or.inr (hcover2 a (by rw [hn4]; omega) h2')))
 end
 
 /-! ### releasing a represented value frees exactly its footprint -/
